@@ -210,7 +210,43 @@ def mt_cases(draw):
     return {"trees": trees, "pscale": draw(gen.PSCALES), "inp": draw(gen.inputs()), "key": draw(st.integers(0, 99))}
 
 
+def axis_sweep():
+    """Exhaustive: every valid axis (negative included) for Stack / Concatenate / Vmap's condition axis."""
+    aff = lambda sh, sd: {"k": "Affine", "shape": list(sh), "seed": sd}  # noqa: E731
+    inp = {"xraw": [0.3, -1.1, 0.7, 1.9, -0.4, 0.05, 2.2, -0.9], "xpick": [-1] * 8, "craw": [0.4, -0.6, 1.1, 0.2, -1.3, 0.9, 0.1, -0.2],
+           "sigma": 1.0}
+    for sh in [(), (2,), (2, 3), (1, 2)]:
+        r = len(sh)
+        for ax in range(-(r + 1), r + 1):
+            yield {"tree": {"k": "Stack", "axis": ax, "children": [aff(sh, 1), aff(sh, 2)]}, "pscale": 0.3, "inp": inp, "dbl_invert": False}
+    for sh in [(2,), (2, 3), (2, 1, 3)]:
+        r = len(sh)
+        for ax in range(-r, r):
+            other = list(sh)
+            other[ax] = sh[ax] + 1
+            yield {"tree": {"k": "Concatenate", "axis": ax, "children": [aff(sh, 1), aff(other, 2)]}, "pscale": 0.3, "inp": inp,
+                   "dbl_invert": False}
+    for csh in [(), (2,), (2, 3), (3, 2)]:
+        r = len(csh)
+        for cax in [None] + list(range(-(r + 1), r + 1)):
+            for mapped in (False, True):
+                t = {"k": "Vmap", "n": 4, "mapped": mapped,
+                     "child": {"k": "AdditiveCondition", "shape": [], "cond": list(csh), "seed": 3, "module": "tensor"}}
+                if cax is not None:
+                    t["cond_axis"] = cax
+                yield {"tree": t, "pscale": 0.3, "inp": inp, "dbl_invert": False}
+
+
 def run(ctx):
     q = ctx.tier == "quick"
+    n = 0
+    from vf.core import shard
+    for c in shard(axis_sweep(), ctx):
+        try:
+            oracle(c, ctx)
+        except Violation as v:
+            ctx.fail(v.signature, c, v.detail)
+        n += 1
+    ctx.exhaustive["axis_sweep"] = n
     run_hypothesis(ctx, cases(3, 8) if q else cases(4, 14), oracle, 110 if q else 1100, "C08-trees")
     run_hypothesis(ctx, mt_cases(), oracle_merge_transforms, 15 if q else 150, "C08-merge_transforms")
